@@ -32,6 +32,21 @@ pub fn exec(run: u64, prog: &Value, out: &mut Out) {
             out.emit(json!({"ev":name,"run":run,"n":n as u64,"b":b,"raw":r,"value":v,"panic":res.is_err()}));
             continue;
         }
+        if name == "append_two" || name == "delete_two" {
+            // a slice in two uniform parts (ka MiB + ra bytes of a, then kb MiB + rb bytes of b): non-uniform and, with
+            // enough MiB, longer than 2^32 bytes
+            let (ka, ra, kb, rb) = (u64_of(get(op, "ka")) as usize, u64_of(get(op, "ra")) as usize, u64_of(get(op, "kb")) as usize, u64_of(get(op, "rb")) as usize);
+            let (a, b) = (u8_of(get(op, "a")), u8_of(get(op, "b")));
+            let na = (ka << 20) + ra;
+            let nb = (kb << 20) + rb;
+            let mut buf = vec![a; na + nb];
+            buf[na..].fill(b);
+            let res = guarded(|| if name == "append_two" { c.append(&buf) } else { c.delete(&buf) });
+            drop(buf);
+            let (r, v) = obs(&c);
+            out.emit(json!({"ev":name,"run":run,"ka":ka as u64,"ra":ra as u64,"kb":kb as u64,"rb":rb as u64,"a":a,"b":b,"raw":r,"value":v,"panic":res.is_err()}));
+            continue;
+        }
         let arg = bytes_of(get(op, "arg"));
         // slices are handed over at every alignment in turn
         let off = (run as usize + arg.len() + opi) % 16;
